@@ -3,6 +3,7 @@ package rules
 import (
 	"fmt"
 	"go/token"
+	"go/types"
 	"sort"
 	"strings"
 
@@ -108,7 +109,7 @@ func enclosingRange(in ssa.Instruction) (ssa.Value, bool, bool) {
 func C10(c *Ctx) {
 	r := c.R
 	r.Rule("R10.1", "order independence: every byte sequence fed to sha256.Sum256 in FlushDirtyData and getStateJournalAndComputeHash is assembled by appends inside a loop over a key slice that was sorted (sort.Strings) before the loop and is not appended to afterwards; nothing is appended to a hash input inside a map range or sync.Map.Range callback; transaction and receipt leaves are produced by an index-ordered loop over the block's slices.")
-	r.Rule("R10.2", "field coverage: the per-key preimage contains key and value, appended for every selected key (no key is skipped inside the hashing loop, a deleted key included); the per-account preimage contains the address, the marshalled dirty account and the state hash; the predicate selecting hashed keys (!bytes.Equal(orig, value)) is the same predicate that selects keys for the journal and for Commit.")
+	r.Rule("R10.2", "field coverage: the per-key preimage contains key and value, appended for every selected key (no key is skipped inside the hashing loop, a deleted key included); the per-account preimage contains the address, the marshalled dirty account and the state hash; the predicate that selects a dirty key for the journal and the state hash and the one that selects it for Commit are evaluated over the value classes {absent (nil), empty, content a, content b}: every pair (origin, value) of different classes is selected - nil marks an absent or deleted key, an empty value is a value, and bytes.Equal alone does not tell them apart - and both sites select the same pairs.")
 	r.Rule("R10.3", "injective encoding: a preimage built by concatenating two or more variable-length fields per element without length prefix or delimiter is ambiguous (key||value): different write sets can produce the same root.")
 	r.NotDecided = append(r.NotDecided, "collision resistance; sensitivity as a behavioural fact")
 	r.Rule("R10.5", "the root commits to what the database holds: every Put / Delete that SimpleLedger.Commit issues on the state batch uses a key built by one of the ledger's key constructors (composeStateKey, compositeKey), and for each data kind written (account record, code, storage key) the Put and the Delete use the same constructor; a change that is hashed into the root but written under another key leaves the database behind the root.")
@@ -362,45 +363,135 @@ func C10(c *Ctx) {
 			}
 		}
 	}
-	for _, spec := range []string{"dirtyState.Range callbacks"} {
-		_ = spec
-		for _, cb := range rangeCallbacks {
-			spec := "internal/ledger." + cbOwner[cb]
-			// a callback of dirtyState.Range: effects (map update / batch Put/Delete) behind !bytes.Equal(orig, val)
-			es := condEdges(cb, func(f core.Fact, ifi *ssa.If) (bool, int) {
-				if f.Kind != core.FBool {
-					return false, 0
-				}
-				if call, ok := f.Subject.(*ssa.Call); ok && core.CalleeName(call) == "bytes.Equal" {
-					return true, 1 - holdsEdge(f)
-				}
-				return false, 0
-			})
-			isEff := func(in ssa.Instruction) bool {
-				if mu, ok := in.(*ssa.MapUpdate); ok {
-					// recording the previous (origin) value of a key: the journal's selection
-					return core.Mentions(mu.Value, func(v ssa.Value) bool {
-						cc, ok := v.(*ssa.Call)
-						if !ok || core.CalleeName(cc) != "(*sync.Map).Load" {
-							return false
-						}
-						_, fld, _, okf := core.FieldOf(core.Receiver(cc))
-						return okf && fld == "originState"
-					})
-				}
-				if call, ok := in.(ssa.CallInstruction); ok {
-					if o := core.CalleeObj(call); o != nil && (o.Name() == "Put" || o.Name() == "Delete") && strings.Contains(core.CalleeName(call), "storage.") {
-						return true
-					}
-				}
-				return false
+	isOriginLoad := func(v ssa.Value) bool {
+		cc, ok := v.(*ssa.Call)
+		if !ok || core.CalleeName(cc) != "(*sync.Map).Load" {
+			return false
+		}
+		_, fld, _, okf := core.FieldOf(core.Receiver(cc))
+		return okf && fld == "originState"
+	}
+	isByteSlice := func(t types.Type) bool {
+		sl, ok := t.Underlying().(*types.Slice)
+		if !ok {
+			return false
+		}
+		b, ok := sl.Elem().Underlying().(*types.Basic)
+		return ok && b.Kind() == types.Uint8
+	}
+	type predTable struct {
+		owner string
+		pos   token.Pos
+		sel   map[[2]core.BytesClass]bool
+		unk   map[[2]core.BytesClass]bool
+	}
+	var tables []predTable
+	for _, cb := range rangeCallbacks {
+		spec := "internal/ledger." + cbOwner[cb]
+		isEff := func(in ssa.Instruction) bool {
+			if mu, ok := in.(*ssa.MapUpdate); ok {
+				// recording the previous (origin) value of a key: the journal's selection
+				return core.Mentions(mu.Value, isOriginLoad)
 			}
-			if len(sites(cb, isEff)) == 0 {
+			if call, ok := in.(ssa.CallInstruction); ok {
+				if o := core.CalleeObj(call); o != nil && (o.Name() == "Put" || o.Name() == "Delete") && strings.Contains(core.CalleeName(call), "storage.") {
+					return true
+				}
+			}
+			return false
+		}
+		effs := sites(cb, isEff)
+		if len(effs) == 0 {
+			continue
+		}
+		nPred += len(effs)
+		key := shortFnName(spec) + " callback: a key is selected for journal / state hash / commit whenever its value differs from the origin value"
+		// the two compared values: the arguments of the comparison (bytes.Equal or a module predicate over two byte
+		// slices) that feeds a branch of the callback; the origin side is the one read from originState
+		var origV, newV ssa.Value
+		for _, call := range core.Calls(cb) {
+			cv, ok := call.(*ssa.Call)
+			if !ok || len(cv.Call.Args) != 2 || !isByteSlice(cv.Call.Args[0].Type()) || !isByteSlice(cv.Call.Args[1].Type()) {
 				continue
 			}
-			nPred += c.behindEdges("R10.2", shortFnName(spec)+" callback", cb, es, isEff, "!bytes.Equal(origin, value)", "journal/commit/hash selection of a key")
+			if core.CalleeName(call) != "bytes.Equal" && core.StaticCallee(call) == nil {
+				continue
+			}
+			a0, a1 := cv.Call.Args[0], cv.Call.Args[1]
+			o0, o1 := core.Mentions(a0, isOriginLoad), core.Mentions(a1, isOriginLoad)
+			if o0 == o1 {
+				continue
+			}
+			if o1 {
+				a0, a1 = a1, a0
+			}
+			if origV == nil {
+				origV, newV = a0, a1
+			}
+		}
+		tb := predTable{owner: shortFnName(spec), pos: cb.Pos(), sel: map[[2]core.BytesClass]bool{}, unk: map[[2]core.BytesClass]bool{}}
+		if origV == nil {
+			// no comparison with the origin value at all: every dirty key is selected
+			for _, o := range core.BytesClasses {
+				for _, v := range core.BytesClasses {
+					tb.sel[[2]core.BytesClass{o, v}] = true
+				}
+			}
+			r.OK("R10.2", key, c.P.Pos(cb.Pos()), "the callback does not compare with the origin value: every dirty key is selected")
+			tables = append(tables, tb)
+			continue
+		}
+		var missed, undec []string
+		for _, o := range core.BytesClasses {
+			for _, v := range core.BytesClasses {
+				w := core.WalkBytes(cb, map[ssa.Value]core.BytesClass{origV: o, newV: v})
+				reached := false
+				for _, e := range effs {
+					if w.Blocks[e.Block()] {
+						reached = true
+					}
+				}
+				k := [2]core.BytesClass{o, v}
+				tb.sel[k], tb.unk[k] = reached, w.Unknown
+				if o == v {
+					continue
+				}
+				if w.Unknown {
+					undec = append(undec, fmt.Sprintf("(origin %s, value %s)", o, v))
+				} else if !reached {
+					missed = append(missed, fmt.Sprintf("(origin %s, value %s)", o, v))
+				}
+			}
+		}
+		tables = append(tables, tb)
+		switch {
+		case len(missed) > 0:
+			r.Bad("R10.2", key, c.P.Pos(effs[0].Pos()), "the selection predicate of "+core.FnName(cb)+" does not select a changed key: "+strings.Join(missed, ", ")+" - the block saw the write, but it is neither journaled, hashed into the state root nor stored (nil marks an absent or deleted key, an empty value is a value; bytes.Equal(nil, []byte{}) is true)")
+		case len(undec) > 0:
+			r.Unknown("R10.2", key, c.P.Pos(effs[0].Pos()), "the selection predicate of "+core.FnName(cb)+" could not be evaluated for "+strings.Join(undec, ", "))
+		default:
+			r.OK("R10.2", key, c.P.Pos(effs[0].Pos()), fmt.Sprintf("predicate evaluated over {absent, empty, a, b} x {absent, empty, a, b}: all 12 differing pairs reach the selection (%d effect site(s))", len(effs)))
 		}
 	}
+	// sibling agreement: journal / hash and commit select the same keys
+	for i := 1; i < len(tables); i++ {
+		var diff []string
+		for _, o := range core.BytesClasses {
+			for _, v := range core.BytesClasses {
+				k := [2]core.BytesClass{o, v}
+				if tables[0].sel[k] != tables[i].sel[k] && !tables[0].unk[k] && !tables[i].unk[k] {
+					diff = append(diff, fmt.Sprintf("(origin %s, value %s): %s selects=%v, %s selects=%v", o, v, tables[0].owner, tables[0].sel[k], tables[i].owner, tables[i].sel[k]))
+				}
+			}
+		}
+		key := "selection predicates agree: " + tables[0].owner + " / " + tables[i].owner
+		if len(diff) > 0 {
+			r.Bad("R10.2", key, c.P.Pos(tables[i].pos), "the state hash / journal and the commit do not select the same keys: "+strings.Join(diff, "; ")+" - a change is hashed into the root but not written to the database, or written without being journaled")
+		} else {
+			r.OK("R10.2", key, c.P.Pos(tables[i].pos), "both callbacks select the same (origin, value) classes (16 pairs compared)")
+		}
+	}
+	r.Floor("R10.2", "selection callbacks compared", len(tables), 2)
 	r.Floor("R10.2", "selection sites behind the changed-value predicate", nPred, 3)
 
 	// R10.4 balances are immutable values
